@@ -35,6 +35,14 @@ theorem C14_parse_stringify_device (d : Device) (h : DeviceB d) : devParse (devS
 theorem C14_parse_stringify_reader (r : Reader) (h : ReaderB r) : rdrParse (rdrStringify r) = some r :=
   rdrParse_stringify r (wf_reader r h)
 
+/-- the stored form is a fixed point: storing a restored session writes the same string again, so
+any number of store / restore cycles (a wallet that persists after every step) neither drifts nor
+grows — the model-side statement of the harness's stringify fixed-point comparison -/
+theorem C14_stringify_fixed_point (d : Device) (r : Reader) (hd : DeviceB d) (hr : ReaderB r) :
+    (devParse (devStringify d)).map devStringify = some (devStringify d) ∧
+    (rdrParse (rdrStringify r)).map rdrStringify = some (rdrStringify r) := by
+  rw [C14_parse_stringify_device d hd, C14_parse_stringify_reader r hr]; exact ⟨rfl, rfl⟩
+
 /-- serialising is deterministic and injective on states: two states with the same stored form are
 the same state (nothing of the state is left out of the stored form) -/
 theorem C14_stored_form_injective (d d' : Device) (h : devToCbor d = devToCbor d') : d = d' := by
